@@ -368,7 +368,7 @@ pub fn render_do(stmts: &[S], ind: usize, m: &DoMode) -> String {
                 if let S::If { c, .. } | S::Match { s: c, .. } = &**body {
                     push_ok(&mut out, &pad, m, &[c]);
                 }
-                let inner = render_do_head(body, ind, m);
+                let inner = render_do_head(body, ind + 2, m);
                 out.push_str(&format!("{}let {} ← {}", pad, pat, inner));
             }
             S::Assign { name, val } => {
